@@ -2,6 +2,7 @@ package main
 
 import (
 	"fmt"
+	"math/big"
 	"go/types"
 	"strings"
 
@@ -40,21 +41,45 @@ func (in *Interp) vsymCall(name string, args []Value, c *ssa.CallCommon) []Value
 		"Bool": types.Typ[types.Bool],
 	}
 	if t, ok := basic[name]; ok {
-		return one(in.newSym(strArg(args[0]), in.sortMust(t)))
+		v := in.newSym(strArg(args[0]), in.sortMust(t))
+		if v.sort == SInt {
+			// ints=math: a value of a fixed-width type lies in that type's range
+			b := t.(*types.Basic)
+			bits := map[types.BasicKind]uint{types.Int: 64, types.Int64: 64, types.Uint: 64, types.Uint64: 64, types.Int32: 32, types.Uint32: 32}[b.Kind()]
+			lo, hi := new(big.Int), new(big.Int)
+			if b.Info()&types.IsUnsigned != 0 {
+				hi.Lsh(big.NewInt(1), bits)
+			} else {
+				hi.Lsh(big.NewInt(1), bits-1)
+				lo.Neg(hi)
+			}
+			in.axiom(ts.And(ts.IntCmp("sle", ts.IntConst(SInt, lo), v), ts.IntCmp("slt", v, ts.IntConst(SInt, hi))))
+		}
+		return one(v)
 	}
 	switch name {
 	case "init":
 		return nil
+	case "Concrete":
+		t := args[0].(*Term)
+		v := in.concretize(t, "vsym.Concrete")
+		return one(ts.IntConst64(t.sort, int64(v)))
+	case "And":
+		return one(ts.And(args[0].(*Term), args[1].(*Term)))
+	case "Or":
+		return one(ts.Or(args[0].(*Term), args[1].(*Term)))
+	case "Implies":
+		return one(ts.Implies(args[0].(*Term), args[1].(*Term)))
 	case "IsSymbolic":
 		return one(ts.True())
 	case "Thorough":
 		return one(ts.Bool(in.tier == "thorough"))
 	case "Assume":
 		c := args[0].(*Term)
-		in.assume(c)
-		if c.IsFalse() {
-			panic(pathDead{"assume(false)"})
+		if c.IsFalse() || !in.feasible(c) {
+			panic(pathDead{"assumption infeasible on this path"})
 		}
+		in.assume(c)
 		return nil
 	case "Assert":
 		in.obligation(strArg(args[1]), "assert", args[0].(*Term))
